@@ -34,7 +34,14 @@ def choose_form(rng, topics, idx=None, allow_all=True, hidden=()):
         k = rng.randint(1, len(topics))
         pick = rng.sample(topics, k)
         extra = [h for h in hidden if rng.random() < 0.5]
-        return [(t, t if rng.random() < 0.5 else f'{t}_m') for t in pick] + [(h, h) for h in extra]
+        out, used = [], set()
+        for t in pick:
+            d = t if rng.random() < 0.5 else f'{t}_m'
+            while d in used or (d != t and d in topics):      # destination names must be unique (a duplicate is a documented config error)
+                d += 'x'
+            used.add(d)
+            out.append((t, d))
+        return out + [(h, h) for h in extra]
     if r < 0.3 and allow_all:
         return 'all'      # caller guarantees disjoint names in that case
     k = rng.randint(1, len(topics))
@@ -62,7 +69,7 @@ def relay_out_topics(beh, tin):
 
 def rand_source_beh(rng, nframes, multi=True):
     beh = {'nframes': nframes, 'proc_ms': rng.choice([[0], [0, 5], [20], [0, 0, 30, 150], [40, 60]]),
-           'content': rng.choice([['data'], ['data', 'raw_bgr'], ['raw_gray', 'jpg', 'data'], ['nested', 'tiny'], ['jpg'], ['raw_rgb']])}
+           'content': rng.choice([['data'], ['data', 'raw_bgr'], ['raw_gray', 'jpg', 'data'], ['nested', 'tiny'], ['jpg'], ['raw_rgb'], ['big_reused'], ['big_reused', 'data']])}
     r = rng.random()
     if multi and r < 0.35:
         beh['topics'] = ['main', 'aux']
@@ -95,7 +102,7 @@ def rand_relay_beh(rng, tin, allow_skip=True, slow=True):
     return beh
 
 
-def gen_general(rng, seed, family=None, faults=('loss', 'kill', 'stall', 'slowlink', 'late'), nframes=None, sync_required=None,
+def gen_general(rng, seed, family=None, faults=('loss', 'kill', 'clean_restart', 'stall', 'slowlink', 'late'), nframes=None, sync_required=None,
                 allow_skip_in_rejoin=True, ephemerals=True, hidden=False):
     """The C01/C02 workload: any topology family with any behaviour; fault classes as listed."""
     family = family or rng.choice(['chain', 'tee', 'tee_rejoin', 'tee_rejoin', 'tee_rejoin3', 'join', 'diamond_chain'])
@@ -183,7 +190,12 @@ def gen_general(rng, seed, family=None, faults=('loss', 'kill', 'stall', 'slowli
     if 'stall' in faults and rng.random() < 0.25:
         victim = rng.choice([n for n in p.nodes if n['role'] != 'source'])
         victim['beh']['stall'] = {'seq': rng.randint(1, 6), 'secs': rng.choice([1.0, 3.0, 7.0])}
-    if 'kill' in faults and rng.random() < 0.35:
+    if 'clean_restart' in faults and rng.random() < 0.2:
+        victim = rng.choice([n for n in p.nodes if n['role'] != 'sink'])
+        victim['prop_exit'] = 'none'            # it leaves quietly (CLOSE only), the rest of the pipeline keeps running
+        scn_faults.append({'at_ms': rng.randint(300, 3000), 'kind': 'clean_restart', 'node': victim['id'], 'delay_ms': rng.choice([0, 300, 1500])})
+        until = 60000
+    elif 'kill' in faults and rng.random() < 0.35:
         victim = rng.choice([n['id'] for n in p.nodes if not n['id'].startswith('e')])
         at = rng.randint(300, 4000)
         delay = rng.choice([0, 200, 1000, 7000])
